@@ -9,7 +9,7 @@ from . import cells
 
 PALETTE = [1, 6, 8, 13, 14, 22, 26, 29, 47, 55, 79, 82]
 FAMILIES = ["gas", "crystal", "defective", "two_crystals", "crystallite", "molecules", "slab", "vacancy_shell", "primitive", "monolayer", "shared_species_stack",
-            "nanotube", "ribbon", "bilayer", "adsorbed_molecule", "amorphous"]
+            "nanotube", "ribbon", "bilayer", "adsorbed_molecule", "amorphous", "minority_compound"]
 
 _CRYSTALS = [
     ("Cu", "fcc", 3.61), ("Al", "fcc", 4.05), ("Fe", "bcc", 2.87), ("W", "bcc", 3.16), ("Si", "diamond", 5.43),
@@ -247,6 +247,46 @@ def shared_species_stack(rng, max_atoms):
 
 
 
+_COMPOUNDS = [("NaCl", "rocksalt", 5.64), ("MgO", "rocksalt", 4.21), ("CsCl", "cesiumchloride", 4.12), ("ZnS", "zincblende", 5.41),
+              ("LiF", "rocksalt", 4.03), ("KBr", "rocksalt", 6.60), ("PbS", "rocksalt", 5.94)]
+_ELEMENTAL = [("Cu", "fcc", 3.61), ("Al", "fcc", 4.05), ("Fe", "bcc", 2.87), ("Ag", "fcc", 4.09), ("Au", "fcc", 4.08), ("W", "bcc", 3.16)]
+
+
+def minority_compound(rng, max_atoms):
+    """A thin compound slab whose species have very different radii (rocksalt / CsCl / zincblende, 2-3 layers) on a
+    much larger elemental crystal, always in shuffled atom order: the compound region is a small cluster that owns
+    scattered, high atom indices (its index list is not ascending) and several species."""
+    A, pa, aa = _COMPOUNDS[int(rng.integers(len(_COMPOUNDS)))]
+    B, pb, ab = _ELEMENTAL[int(rng.integers(len(_ELEMENTAL)))]
+    k = int(rng.integers(2, 4))
+    b = bulk(A, pa, a=aa, cubic=True).repeat((k, k, 1))
+    if rng.random() < 0.5:                      # 3 atomic layers instead of 2
+        extra = bulk(A, pa, a=aa, cubic=True).repeat((k, k, 1))
+        zs = np.unique(np.round(extra.get_positions()[:, 2], 3))
+        extra = extra[[i for i, p in enumerate(extra.get_positions()) if abs(p[2] - zs[0]) < 1e-3]]
+        extra.translate([0, 0, b.get_cell()[2, 2]])
+        b = b + extra
+        b.set_cell(b.get_cell().array + np.array([[0, 0, 0], [0, 0, 0], [0, 0, aa / 2]]))
+    cb = b.get_cell().array
+    m = max(1, int(round(cb[0, 0] / ab)))
+    budget = max_atoms - len(b)
+    per_layer = len(bulk(B, pb, a=ab, cubic=True)) * m * m
+    layers = int(max(2, min(6, budget // max(per_layer, 1))))
+    a = bulk(B, pb, a=ab, cubic=True).repeat((m, m, layers))
+    ca = a.get_cell().array
+    a.set_cell(np.array([cb[0], cb[1], ca[2]]), scale_atoms=True)
+    gap = float(rng.uniform(1.8, 2.6))
+    b.translate(ca[2] + np.array([0, 0, gap]))
+    if len(a) + len(b) > max_atoms:             # drop atoms of the elemental part, never of the compound
+        a = a[:max(1, max_atoms - len(b))]
+    s = a + b
+    s.set_cell(np.array([cb[0], cb[1], ca[2] + cb[2] + np.array([0, 0, 2 * gap + rng.choice([0.0, 7.0])])]))
+    s.set_pbc(True)
+    if rng.random() < 0.5:
+        s.rattle(stdev=0.02, seed=int(rng.integers(1 << 30)))
+    return s[[int(i) for i in rng.permutation(len(s))]]
+
+
 def nanotube(rng, max_atoms):
     from ase.build import nanotube as _nt
     n, m = int(rng.integers(3, 7)), int(rng.integers(0, 4))
@@ -312,7 +352,8 @@ def amorphous(rng, max_atoms):
 _BUILDERS = {"gas": gas, "crystal": crystal, "defective": defective, "two_crystals": two_crystals,
              "crystallite": crystallite, "molecules": molecules, "slab": slab, "vacancy_shell": vacancy_shell,
              "primitive": primitive, "monolayer": monolayer, "shared_species_stack": shared_species_stack,
-             "nanotube": nanotube, "ribbon": ribbon, "bilayer": bilayer, "adsorbed_molecule": adsorbed_molecule, "amorphous": amorphous}
+             "nanotube": nanotube, "ribbon": ribbon, "bilayer": bilayer, "adsorbed_molecule": adsorbed_molecule, "amorphous": amorphous,
+             "minority_compound": minority_compound}
 
 
 def random_structure(rng, max_atoms=300, family=None, allow_degenerate=True, allow_invalid=False,
@@ -373,6 +414,12 @@ def random_structure(rng, max_atoms=300, family=None, allow_degenerate=True, all
         t = rng.normal(scale=6.0, size=3)
         a.set_positions(a.get_positions() + t)
         meta["positions_mode"] = "translated_outside"
+    # atom order: builders list one crystal / molecule after the other; half of the structures are shuffled (a small
+    # region then owns scattered, high indices: index lists that are not ascending, index-ordered helper arrays)
+    meta["order"] = "as_built"
+    if rng.random() < 0.5 and len(a) > 1:
+        a = a[[int(i) for i in rng.permutation(len(a))]]
+        meta["order"] = "permuted"
     meta["pbc"] = "".join("TF"[not b] for b in pbc)
     meta["natoms"] = len(a)
     return a, meta
